@@ -113,6 +113,7 @@ def run(prog, ctx):
     # ------------------------------------------------------------------ D3 / D4
     check_stitching(prog, ctx)
     check_modified_small_cases(prog, ctx, cw)
+    check_round2(prog, ctx)
 
     # ------------------------------------------------------------------ D2
     cq = prog.func(GT + ".compute_1D_quad_weights")
@@ -211,6 +212,65 @@ def check_stitching(prog, ctx):
                       "`%s` drops the first weight of %s but that weight was not added to %s[-1] of the same array: the point shared by the two "
                       "sub-intervals loses one contribution" % (src(call), show(B[1]), show(A)))
     ctx.floor("C09.D3", n, 2, "overlap-add concatenations in the high-order rule")
+
+
+def check_round2(prog, ctx):
+    """D5 the grid's shared Gauss nodes are not modified by basis integrals (rule shared with C10.D8);
+    D6 the point-wise integrator skips a point only if its weight is exactly zero (high-order rules have negative weights);
+    D7 both ways of solving for the high-order weights (moment matching / nnls) get the same affine scaling to [a, b]."""
+    from .C10 import check_quadrature_nodes_not_modified
+    check_quadrature_nodes_not_modified(prog, ctx, rule="C09.D5")
+    ip = prog.func("Integrator.IntegratorArbitraryGrid.integrate_point")
+    ctx.touch(ip)
+    tm = Terms(ip.node)
+    c = cfg_of(ip)
+    zero_rets = [r for r in R.return_paths(ip)[0] if tm.term(r.ast.value) in (("c", "0.0"), ("c", "0"))]
+    ok = True
+    why = ""
+    for r in zero_rets:
+        guards = [g for (g, gn) in R.dominating_guards(ip, r, tm) if gn.kind == "test"]
+        for g in guards:
+            if not (g[0] == "cmp" and g[1] == "Eq" and (("c", "0") in (g[2], g[3]) or ("c", "0.0") in (g[2], g[3]))):
+                ok = False
+                why = show(g)
+    ctx.check(ok, "C09.D6", R.key_of(ip, "skips-only-zero-weights"), ip.loc(),
+              "a point is skipped only when its weight equals zero",
+              "integrate_point returns 0 without evaluating f under `%s`: points with a negative weight (legal for the high-order rules) are dropped" % why)
+    n7 = 0
+    for ho in prog.cls("Grid.GlobalHighOrderGrid").methods.values():
+        ifs = [x for x in walk_local(ho.node) if isinstance(x, ast.If) and x.orelse
+               and any(isinstance(y, ast.Attribute) and y.attr == "do_nnls" for y in ast.walk(x.test))]
+        if not ifs:
+            continue
+        ctx.touch(ho)
+        params = set(ho.params)
+
+        def interval_scaled(expr):
+            return any(isinstance(y, ast.BinOp) and isinstance(y.op, ast.Sub) and isinstance(y.left, ast.Name) and isinstance(y.right, ast.Name)
+                       and y.left.id in params and y.right.id in params for y in ast.walk(expr))
+        for iff in ifs:
+            def arm_defs(block):
+                out = {}
+                for st in block:
+                    if isinstance(st, ast.Assign) and len(st.targets) == 1:
+                        for t_ in (st.targets[0].elts if isinstance(st.targets[0], ast.Tuple) else [st.targets[0]]):
+                            if isinstance(t_, ast.Name):
+                                out[t_.id] = st
+                return out
+            d1, d2 = arm_defs(iff.body), arm_defs(iff.orelse)
+            for nm in sorted(set(d1) & set(d2)):
+                n7 += 1
+                s1, s2 = interval_scaled(d1[nm].value), interval_scaled(d2[nm].value)
+                # a common scaling after the branches: `W = (b - a) * W / 2`
+                common = [st for st in walk_local(ho.node) if isinstance(st, ast.Assign) and len(st.targets) == 1 and isinstance(st.targets[0], ast.Name)
+                          and st.targets[0].id == nm and st is not d1[nm] and st is not d2[nm] and interval_scaled(st.value)
+                          and any(isinstance(y, ast.Name) and y.id == nm for y in ast.walk(st.value))]
+                ok = (s1 == s2) and (bool(common) != (s1 and s2))
+                ctx.check(ok, "C09.D7", R.key_of(ho, "branches-scaled-alike:%s" % nm), ho.loc(d1[nm]),
+                          "both ways of computing `%s` are scaled to the interval exactly once" % nm,
+                          "`%s`: scaled by the interval length in the first branch=%s, in the second branch=%s, by a common statement after them=%s; "
+                          "each branch must be scaled exactly once" % (nm, s1, s2, bool(common)))
+    ctx.floor("C09.D7", n7, 1, "weight definitions in the moment-matching / nnls branches")
 
 
 def check_modified_small_cases(prog, ctx, cw):
